@@ -381,6 +381,16 @@ def has_tiny_denom(sercase):
     return any(c['kind'] == 'cubic' and tiny_denom(deser(c)[1]) for c in cs)
 
 
+def arc_endpoint_mismatch(segs, size):
+    """an Arc whose point(0) / point(1) is not its stored start / end (theta, delta recovered through acos near
+    +-1: property C04's subject); Arc.bbox seeds its extrema with start / end, the curve starts at point(0)"""
+    for s in segs:
+        if hasattr(s, 'large_arc'):
+            if abs(complex(s.point(0)) - s.start) > 1e-9 * size or abs(complex(s.point(1)) - s.end) > 1e-9 * size:
+                return True
+    return False
+
+
 def gen_case(rng):
     k = rng.choice(['line', 'quad', 'quad', 'cubic', 'cubic', 'cubic', 'cubic', 'arc', 'arc', 'arc', 'path'])
     if k == 'line': d, m = gen_line(rng)
@@ -428,6 +438,11 @@ def run(rep, tier, seed, replay=None):
                  -98.00181415191666 + 12.90781526648037j]
             todo.append(('cubic', [q[0], q[0] + 2 / 3 * (q[1] - q[0]), q[2] + 2 / 3 * (q[1] - q[2]), q[2]],
                          'corpus/elevated-quadratic'))
+            # hand-picked: start on an axis extreme, tiny rotation: theta is recovered through acos(1 - 3e-16)
+            todo.append(('arc', dict(start=132.34614912707576 - 34.0372645125598j,
+                                     radius=43.40627831336215 + 86.8125566267243j, rotation=6.139591554618287e-06,
+                                     large_arc=False, sweep=True, end=132.18097432261396 - 26.471051677633955j),
+                         'corpus/start-on-extreme'))
             for _ in range(n):
                 todo.append(gen_case(rng))
         cases, meta = [], []
@@ -486,6 +501,8 @@ def run(rep, tier, seed, replay=None):
                 key = 'bbox-%s-%s' % (what, kind)
                 if has_tiny_denom(sercase):
                     key = 'bbox-cubic-tiny-denom-cancellation'
+                elif arc_endpoint_mismatch(segs, size):
+                    key = 'bbox-arc-endpoint-mismatch'
                 vkeys[key] = vkeys.get(key, 0) + 1
                 rep.violation('C08: %s bbox() is %s: %s' % (kind, what.replace('-', ' '), detail),
                               {'kind': 'property', 'case': sercase, 'bbox': [common.fhex(v) for v in box],
